@@ -163,7 +163,13 @@ def multi_stream(rng, res, n):
             body = ' '.join('$%s$ und oder und oder w%d_%d' % (rng.choice(['a', 'x+y', 'z']), k, q)
                             for q in range(nf))
             seq += [lang] * nf
-            if lang == 'de':
+            if lang == 'de' and rng.random() < 0.4:
+                # a footnote inside the foreign passage: its formulas belong
+                # to that language, and so do the formulas behind it
+                fb = 'Fu\\footnote{Note $%s$ hier und da.} ' % rng.choice(['p', 'q+r'])
+                seq.insert(len(seq) - nf, 'de-foot')
+                tex += '\\begin{otherlanguage}{german}\n' + fb + body + ' lang lang lang.\n\\end{otherlanguage}\n\n'
+            elif lang == 'de':
                 tex += '\\begin{otherlanguage}{german}\n' + body + ' lang lang lang.\n\\end{otherlanguage}\n\n'
             else:
                 tex += body + ' some more words here.\n\n'
@@ -177,10 +183,11 @@ def multi_stream(rng, res, n):
         seq = meta[c.latex]
         for lang, key in (('en-GB', 'en'), ('de-DE', 'de')):
             inl, _ = placeholders(key)
-            want = [inl[(i + 1) % len(inl)] for i in range(seq.count(key))]
+            want = [inl[(i + 1) % len(inl)] for i in range(
+                seq.count(key) + (seq.count('de-foot') if key == 'de' else 0))]
             txt = ' '.join(t for lg, t, p in universe.texts_of(im) if lg == lang)
             got = re.findall('|'.join(re.escape(x) for x in inl), txt)
-            if got != want:
+            if (sorted(got) != sorted(want)) if 'de-foot' in seq else (got != want):
                 return ('%s formulas receive %r, successive placeholders of the '
                         'collection are %r' % (lang, got, want))
         return None
